@@ -321,7 +321,7 @@ theorem C34_progress_core (n : Nat) (ms : List Mark) {strict : Bool}
       omega
   · exact hl
 
-theorem Reach.live {d : Bool} {n : Nat} {s : Sys} (h : Reach false d n s) : LiveInv n s := by
+theorem OReach.live {d : Bool} {n : Nat} {s : Sys} (h : OReach false d n s) : LiveInv n s := by
   induction h with
   | init => exact LiveInv.init d n
   | @step s s' l hr hstep ih =>
@@ -504,7 +504,7 @@ theorem Reach.live {d : Bool} {n : Nat} {s : Sys} (h : Reach false d n s) : Live
     commit `≤ r` that has been handed out and not yet reported done. Contrapositive: once every
     commit at or below its read timestamp is done (and `process` has caught up) the transaction has
     been released. -/
-theorem SysInv.parked_has_reason {d : Bool} {n : Nat} {s : Sys} (h : Reach false d n s)
+theorem SysInv.parked_has_reason {d : Bool} {n : Nat} {s : Sys} (h : OReach false d n s)
     (hq : s.o.txnMark.q = []) (tid : Nat) (x : TxnSt) (hx : s.txns[tid]? = some x)
     (hp : x.phase = .parked) : ∃ e ∈ s.hist, e.ts ≤ x.t.readTs ∧ e.ts ∉ s.doneCommits := by
   have hI := h.inv
